@@ -37,6 +37,10 @@ type Case struct {
 	Src  Win       `json:"src"`
 	Dst  Win       `json:"dst"`
 	Vals []kit.Val `json:"vals"` // source sample k is Vals[k % len]
+	// DstFill: 0 = destination holds sentinels; 1 = every destination sample is 0 (+0 for floats);
+	// 2 = -0 for floating destinations (0 for integer ones). A result that merely compares equal
+	// to what the destination already holds must still be stored.
+	DstFill int `json:"dstFill,omitempty"`
 }
 
 func build(name string, C int, w Win) (root, win kit.AnyBuf, model []kit.Val, off, n int) {
@@ -79,6 +83,20 @@ func Check(c *Case) (res kit.Result) {
 	}
 	if c.Src.Fix != 0 || c.Dst.Fix != 0 {
 		res.Class("headerNeverWrittenThrough")
+	}
+	if c.DstFill < 0 || c.DstFill > 2 {
+		return kit.Result{}
+	}
+	if c.DstFill > 0 {
+		z := kit.IV(0)
+		if c.DstFill == 2 && e.D.Kind == kit.Float {
+			z = kit.FV(math.Copysign(0, -1))
+		}
+		for k := 0; k < droot.Len(); k++ {
+			droot.Set(k, z)
+		}
+		dmodel = droot.Snap()
+		res.Class("destinationPrefilledWithZeros")
 	}
 	smodel := sroot.Snap()
 	sh, dh, srh, drh := src.Hdr(), dst.Hdr(), sroot.Hdr(), droot.Hdr()
@@ -167,6 +185,7 @@ func FP(c *Case) uint64 {
 	h := kit.NewHasher()
 	h.Str(c.S)
 	h.Str(c.D)
+	h.Int(c.DstFill)
 	h.Ints([]int{c.C, c.Src.Kr, c.Src.A, c.Src.B, c.Src.Partial, c.Src.Fix, c.Dst.Kr, c.Dst.A, c.Dst.B, c.Dst.Partial, c.Dst.Fix})
 	for _, v := range c.Vals {
 		if v.K == 'f' {
@@ -226,6 +245,15 @@ func Gen(t *rapid.T) *Case {
 	nv := rapid.IntRange(1, 10).Draw(t, "nvals")
 	for i := 0; i < nv; i++ {
 		c.Vals = append(c.Vals, GenVal(t, e.S, e.D.Kind == kit.Float))
+	}
+	if rapid.IntRange(0, 4).Draw(t, "dstFillSel") == 0 {
+		c.DstFill = rapid.IntRange(1, 2).Draw(t, "dstFill")
+		// make zeros (of both signs for floats) likely among the source values
+		if e.S.Kind == kit.Float {
+			c.Vals = append(c.Vals, kit.FV(0), kit.FV(math.Copysign(0, -1)), kit.FV(1e-300), kit.FV(-1e-300))
+		} else {
+			c.Vals = append(c.Vals, convtab.AmpToCode(e.S, 0))
+		}
 	}
 	return c
 }
